@@ -207,6 +207,20 @@ class Index:
         cands = [c for c in self.all_classes() if c.qual == qual]
         if hint:
             pref = [c for c in cands if c.module.rel.startswith(hint)]
+            if not pref and len(cands) > 1:
+                # the class moved to another file: first the hinted module's own imports (a re-export), then its directory
+                for rel, m in self.modules.items():
+                    if rel.startswith(hint) and qual.split(".")[0] in m.imports:
+                        r = self._resolve_import(m.imports[qual.split(".")[0]])
+                        if isinstance(r, ClassInfo):
+                            for part in qual.split(".")[1:]:
+                                r = r.nested.get(part) if r is not None else None
+                            if r is not None:
+                                pref = [r]
+                                self.relocated[spec] = r.site
+                                break
+                if not pref and os.path.dirname(hint):
+                    pref = [c for c in cands if c.module.rel.startswith(os.path.dirname(hint) + "/")]
             if pref:
                 cands = pref
         if len(cands) == 1:
@@ -289,6 +303,24 @@ class Index:
                 return self._resolve_import(im.imports[name])
             for st in im.star_imports:
                 r = self._module_member(st, name)
+                if r is not None:
+                    return r
+        return None
+
+    def resolve_function(self, module, name, depth=0):
+        """Module-level function `name` as seen from `module`: its own, or one imported from another module of the package
+        (`from .._utils import name`, possibly re-exported through a package __init__ or renamed with `as`)."""
+        f = module.functions.get(name)
+        if f is not None or depth > 3:
+            return f
+        imp = module.imports.get(name)
+        if imp is None:
+            return None
+        _, target, orig = imp
+        for rel in (target + ".py", os.path.join(target, "__init__.py") if target else "__init__.py"):
+            m = self.modules.get(rel)
+            if m is not None:
+                r = self.resolve_function(m, orig, depth + 1)
                 if r is not None:
                     return r
         return None
